@@ -3,12 +3,14 @@ Composition layer for C03: from the per-stage theorems of C01/C02 (source-feasib
 linear-feasible; the linear objective over the extensions is bounded by and attains the source objective) to
 statements about SOLVER ANSWERS on the compiled model.
 
-* `LinOptimal lm ρ`, `LinInfeasible lm`, `LinUnbounded lm` — the abstract contract of a solver on a linear model
-  (what C05's certified comparison validates per instance).  Nothing else is assumed about a solver.
+* `LinOptimal lm ρ`, `LinInfeasible lm`, `LinUnbounded lm` (`Rooc/Proofs/ComposeContract.lean`) — the abstract contract
+  of a solver on a linear model (what C05's certified comparison validates per instance).  Nothing else is assumed
+  about a solver.
 * `CompilesTo m lm` — exactly what C01 + C02 prove about a compiled model, as one structure, so that the
   composition does not depend on HOW the hypotheses of `c01_compile_partial` / `c02_compile_partial` are spelled.
 * `optimal_transfer`, `infeasible_iff`, `unbounded_iff`, `optimal_complete` — the composition.
 -/
+import Rooc.Proofs.ComposeContract
 import Rooc.Proofs.LinBridgeCounter
 import Rooc.Proofs.RefLemmas
 
@@ -19,23 +21,6 @@ namespace Rooc.Compose
 open Rooc Rooc.Lin Rooc.Sem Rooc.LinP Rooc.Ref
 
 variable {K : Type} [Field K] [LinearOrder K] [IsStrictOrderedRing K] [FloorRing K]
-
-/-! ### the solver contract -/
-
-/-- **the solver contract for an optimum**: `ρ` satisfies every row and every domain of `lm`, and no point that
-does has a strictly better objective (`Ref.better`: `<` for `min`, `>` for `max`, never for `satisfy`).
-This is the ONLY assumption the composition theorems make about a solver. -/
-structure LinOptimal (lm : LinModel (Ext K)) (ρ : String → K) : Prop where
-  feasible : linFeasible lm ρ = true
-  best : ∀ ρ' : String → K, linFeasible lm ρ' = true → ∀ w w' : K,
-    linObjective lm ρ = some w → linObjective lm ρ' = some w' → better lm.optType w' w = false
-
-/-- the solver contract for the verdict `infeasible`. -/
-def LinInfeasible (lm : LinModel (Ext K)) : Prop := ∀ ρ : String → K, linFeasible lm ρ = false
-
-/-- the solver contract for the verdict `unbounded`: feasible points with objective beyond every bound. -/
-def LinUnbounded (lm : LinModel (Ext K)) : Prop :=
-  ∀ M : K, ∃ ρ : String → K, linFeasible lm ρ = true ∧ ∃ w, linObjective lm ρ = some w ∧ better lm.optType w M = true
 
 /-- the source model is unbounded. -/
 def SrcUnbounded (m : Model (Ext K)) : Prop :=
@@ -80,10 +65,6 @@ theorem compilesTo_of_compile {m : Model (Ext K)} {t : K} (ht : 0 ≤ t) {maxSte
     compile_objective ht h hm hok hint⟩
 
 /-! ### order facts about `better` / `rel (objReq m)` -/
-
-theorem better_min (a b : K) : better OptType.min a b = decide (a < b) := rfl
-theorem better_max (a b : K) : better OptType.max a b = decide (b < a) := rfl
-theorem better_satisfy (a b : K) : better OptType.satisfy a b = false := rfl
 
 /-- a linear value `w` on the model's side of `v` that is not beaten by `v` equals `v`. -/
 theorem eq_of_rel_of_not_better {m : Model (Ext K)} {w v : K} (hrel : rel (objReq m) w v)
@@ -199,13 +180,6 @@ theorem unbounded_iff (hc : CompilesTo m lm) : LinUnbounded lm ↔ SrcUnbounded 
     obtain ⟨ρ, hs, u, hu, hb⟩ := h M
     obtain ⟨_, ρ', _, hf, ho⟩ := hc.objective ρ hs u hu
     exact ⟨ρ', hf, u, ho, by rw [hc.optType]; exact hb⟩
-
-/-- a feasible compiled model: at least one of the three contracts' negations is informative — `LinOptimal`
-and `LinInfeasible` exclude each other. -/
-theorem optimal_not_infeasible {ρ' : String → K} (ho : LinOptimal lm ρ') : ¬ LinInfeasible lm := by
-  intro h
-  have := ho.feasible
-  rw [h ρ'] at this; cases this
 
 end
 
